@@ -799,6 +799,11 @@ const NUMERIC_CORPUS: &[&[u8]] = &[
     b"binary: 3\nab\nOK\n",
     b"binary: 0\n\nOK\n",
     b"binary: 03\nabc\nOK\n",
+    // what Rust's integer `FromStr` accepts beyond digits: ONE leading `+` (also for unsigned types)
+    b"binary: +6\nFOOBAR\nOK\n",
+    b"binary: +0\n\nOK\n",
+    b"ACK [+1@0] {} x\n",
+    b"ACK [1@+0] {} x\n",
     b"binary: 3 \nabc\nOK\n",
     b"ACK [99999999999999999999@0] {} x\n",
     b"ACK [0@99999999999999999999] {} x\n",
@@ -840,7 +845,12 @@ const NUMERIC_CORPUS: &[&[u8]] = &[
 /// second starting with a component larger than the buffer; one read completes the first response
 /// and carries a backlog of the second whose size sits on the buffer-size boundaries
 fn big_pair_ops(ops: &mut Vec<String>, seed: u64) {
-    let size_a = 9000 + (seed as usize % 7) * 611;
+    big_pair_ops_sized(ops, seed, 9000 + (seed as usize % 7) * 611, false);
+    // the first response beyond 64 KiB (the blocking buffer has doubled to 128 KiB when it completes)
+    big_pair_ops_sized(ops, seed, 70_000 + (seed as usize % 7) * 611, true);
+}
+
+fn big_pair_ops_sized(ops: &mut Vec<String>, seed: u64, size_a: usize, few: bool) {
     let size_b = 5000 + (seed as usize % 5) * 377;
     let pa: Vec<u8> = (0..size_a).map(|i| (i * 13 + 5) as u8).collect();
     let pb: Vec<u8> = (0..size_b).map(|i| (i * 11 + 1) as u8).collect();
@@ -858,14 +868,17 @@ fn big_pair_ops(ops: &mut Vec<String>, seed: u64) {
     let n = stream.len();
     ops.push(format!("proto.recv s {h} {n} eof 0"));
     ops.push(format!("proto.recv a {h} {n} eof 0"));
-    for back in [1usize, 2, 4095, 4096, 4097, 4098, 8191, 8192, 8193] {
+    let backs: &[usize] = if few { &[4095, 4096, 4097, 4999] } else { &[1, 2, 4095, 4096, 4097, 4098, 8191, 8192, 8193] };
+    for back in backs {
         let cut = end_a + back;
         if cut < n {
             for fl in ["s", "a"] {
                 ops.push(format!("proto.recv {fl} {h} {cut},{} eof 0", n - cut));
                 // the tail of the first response and the backlog arrive in ONE read
                 let first = end_a - 100;
-                ops.push(format!("proto.recv {fl} {h} {first},{},{} eof 0", cut - first, n - cut));
+                if !few || fl == "s" {
+                    ops.push(format!("proto.recv {fl} {h} {first},{},{} eof 0", cut - first, n - cut));
+                }
             }
         }
     }
@@ -906,9 +919,18 @@ fn flaky_ops(r: &mut Rng, ops: &mut Vec<String>, n: usize) {
     for i in 0..n {
         let k = r.range(1, 3);
         let rs: Vec<AbsResp> = (0..k).map(|_| gen_resp(r, i % 11 == 0)).collect();
-        let stream = enc_all(&rs);
+        let mut stream = enc_all(&rs);
         if stream.is_empty() {
             continue;
+        }
+        // every fourth stream ends exactly on a line boundary INSIDE a response: after the failures the
+        // end must still be reported as unexpected (only the builder knows that a response is unfinished)
+        if i % 4 == 1 {
+            let lfs: Vec<usize> = stream.iter().enumerate().filter(|(_, b)| **b == b'\n').map(|(q, _)| q + 1).filter(|q| *q < stream.len()).collect();
+            if !lfs.is_empty() {
+                let q = *r.pick(&lfs);
+                stream.truncate(q);
+            }
         }
         let seg = if i % 3 == 0 {
             // cut on line boundaries: the failure falls after lines that were consumed completely
@@ -984,6 +1006,18 @@ pub fn gen(cfg: &Cfg) -> Vec<String> {
                     let fl = ["S", "A", "C", "M", "N"][(i + k) % 5];
                     ops.push(format!("proto.recv {fl} {h} {seg} {term} {extra}"));
                 }
+                // the stream ends exactly on a line boundary inside a response, every call goes through
+                // `command()` / `command_list()`, and further calls follow the failed one: what the failed
+                // call leaves behind must make them repeat its verdict (only the builder knows that a
+                // response is unfinished; the buffer is empty)
+                if i % 6 == 1 && stream.len() <= 400 {
+                    for (q, b) in stream.iter().enumerate() {
+                        if *b == b'\n' && q + 1 < stream.len() {
+                            let fl = if q % 2 == 0 { "N" } else { "M" };
+                            ops.push(format!("proto.recv {fl} {} {} eof 2", hex(&stream[..q + 1]), q + 1));
+                        }
+                    }
+                }
                 // all two-way splits of short streams (every stream in thorough up to 4 KiB)
                 let lim = if cfg.thorough { 1200 } else { 300 };
                 if stream.len() >= 2 && stream.len() <= lim && i % (if cfg.thorough { 2 } else { 4 }) == 0 {
@@ -998,6 +1032,9 @@ pub fn gen(cfg: &Cfg) -> Vec<String> {
             // pipelined responses around the blocking buffer's sizes (a grown buffer, a backlog of exactly
             // 4095 / 4096 / 4097 … bytes of the next response)
             big_pair_ops(&mut ops, cfg.seed);
+            // one binary chunk of 2 MiB (a client may raise `binarylimit`): cut by length, whatever its size
+            ops.push(format!("proto.bigbin s 2097152 1 {} eof 1", hex(b"volume: 1\nOK\n")));
+            ops.push(format!("proto.bigbin a 2097153 1 {} eof 1", hex(b"volume: 1\nOK\n")));
             // a huge binary response directly followed by another response, delivered in large reads
             for (k, size) in [70_000usize, 150_000, 300_000].iter().enumerate() {
                 if k > 0 && !cfg.thorough && cfg.seed % 2 == 1 && k == 1 {
@@ -1093,6 +1130,8 @@ pub fn gen(cfg: &Cfg) -> Vec<String> {
         }
         "C10" => {
             huge_binary_ops(&mut ops, cfg.seed);
+            // the end of the stream after reads that failed and were retried
+            flaky_ops(&mut r, &mut ops, 200 * scale);
             let n = cfg.n.unwrap_or(if cfg.thorough { 700 } else { 120 });
             for i in 0..n {
                 let k = r.range(1, 3);
@@ -1116,6 +1155,12 @@ pub fn gen(cfg: &Cfg) -> Vec<String> {
                     ops.push(format!("proto.connect {fl} {} {seg} eof", hex(&g[..cut])));
                 }
             }
+        }
+        // C17 "any server binary chunk limit": `binarylimit` may be raised up to the server's output buffer,
+        // so one chunk may exceed MPD's DEFAULT output buffer of 8 MiB
+        "C17" => {
+            ops.push(format!("proto.bigbin a 8388609 1 {} eof 1", hex(b"volume: 1\nOK\n")));
+            ops.push(format!("proto.bigbin s 9437307 1 - eof 1"));
         }
         "C18" => {
             let n = cfg.n.unwrap_or(5000 * scale);
